@@ -8,7 +8,7 @@ cp /repo/pyamg/amg_core/tests/*.so pyamg/amg_core/tests/ 2>/dev/null
 rundemo() { if [ -f $sd/run$k.sh ]; then (cd $wt && PYTHONPATH=$wt bash _seed/run$k.sh) ; else (cd $wt && PYTHONPATH=$wt /venv/bin/python _seed/demo$k.py); fi; }
 git apply $sd/patch$k.diff || { echo "APPLYFAIL"; exit 3; }
 rundemo > $sd/verify$k.with.log 2>&1; rc_with=$?
-PYTHONPATH=$wt /venv/bin/python -m pytest -q -p no:cacheprovider --timeout=900 -x -q --junitxml=$sd/junit$k.xml > $sd/verify$k.tests.log 2>&1
+PYTHONPATH=$wt /venv/bin/python -m pytest -q -p no:cacheprovider --timeout=900 -q --junitxml=$sd/junit$k.xml > $sd/verify$k.tests.log 2>&1
 python3 - <<PY > $sd/verify$k.tests.summary
 import json,xml.etree.ElementTree as ET
 base=set(json.load(open('/root/.vp/BASELINE.json'))['stable_pass'])
